@@ -92,6 +92,51 @@ def code_data_case(case, fail):
         f = fail('code_data_succeeds', f'HTTP {status}')
         return False
     code = domain.build_code(cls, size, case['deformation'], {})
+    check_descriptions(code, body, case, fail)
+    H = gf2.to_dense(code.stabilizer_matrix)
+    if np.asarray(body.get('H')).shape != H.shape or not np.array_equal(np.asarray(body['H']), H):
+        fail('H_identical', 'served H differs from the library\'s for the same (deformed) code')
+    for key, ref in (('logical_x', code.logicals_x), ('logical_z', code.logicals_z)):
+        got = np.asarray(body.get(key))
+        if got.shape != np.asarray(ref).shape or not np.array_equal(got, np.asarray(ref)):
+            fail(f'{key}_identical', f'served {key} differs from the library')
+    return True
+
+
+def rough_n(cls, size):
+    """Number of qubits, extrapolated from a lattice of side <= 4 (building
+    a 12^3 lattice only to count its qubits is what we want to avoid)."""
+    small = tuple(min(L, 4) if L % 2 == 0 or L <= 4 else 3 for L in size)
+    scale = 1.0
+    for L, a in zip(size, small):
+        scale *= L / a
+    if not domain.size_ok(cls, small):
+        small, scale = size, 1.0
+    return domain.n_estimate(cls, small) * scale
+
+
+def representation_case(case, fail):
+    """The drawable descriptions of /code-data without the HTTP round trip
+    and without serialising H: the handler's own two list comprehensions on
+    the handler's own code object.  Cheap enough for every entry of the size
+    menu (1..12, plain and coprime) of every class."""
+    gui, _ = client()
+    size = tuple(case['size'])
+    payload = {'Lx': size[0], 'Ly': size[1], 'Lz': size[2] if len(size) == 3 else size[0],
+               'code_name': case['label'],
+               'code_deformation_name': case['deformation'] or 'None',
+               'rotated_picture': case['rotated']}
+    code = gui._instantiate_code(payload)
+    rot = case['rotated']
+    body = {'qubits': [code.qubit_representation(loc, rot) for loc in code.qubit_coordinates],
+            'stabilizers': [code.stabilizer_representation(loc, rot)
+                            for loc in code.stabilizer_coordinates]}
+    body = json.loads(json.dumps(body))
+    check_descriptions(code, body, case, fail)
+    return True
+
+
+def check_descriptions(code, body, case, fail):
     n, m = code.n, len(code.stabilizer_coordinates)
     if len(body.get('qubits', [])) != n:
         fail('one_description_per_qubit', f"{len(body.get('qubits', []))} != n={n}")
@@ -136,14 +181,6 @@ def code_data_case(case, fail):
                 if not case['rotated'] and not near:
                     fail(f'{kind}_index_order', f'{kind} {i}: location {L} vs coordinate {tuple(loc)}')
                     break
-    H = gf2.to_dense(code.stabilizer_matrix)
-    if np.asarray(body.get('H')).shape != H.shape or not np.array_equal(np.asarray(body['H']), H):
-        fail('H_identical', 'served H differs from the library\'s for the same (deformed) code')
-    for key, ref in (('logical_x', code.logicals_x), ('logical_z', code.logicals_z)):
-        got = np.asarray(body.get(key))
-        if got.shape != np.asarray(ref).shape or not np.array_equal(got, np.asarray(ref)):
-            fail(f'{key}_identical', f'served {key} differs from the library')
-    return True
 
 
 def decoder_names_case(case, fail):
@@ -254,6 +291,10 @@ def eval_case(case):
         ok = code_data_case(case, fail)
         nt = bool(case['deformation']) and case['rotated'] and case['coprime']
         labels = ['code-data', case['cls'], 'rotated' if case['rotated'] else 'kitaev']
+    elif case['kind'] == 'representation':
+        representation_case(case, fail)
+        nt = case['size'][0] >= 7
+        labels = ['representation', case['cls'], f"L={min(case['size'])}"]
     elif case['kind'] == 'decoder-names':
         decoder_names_case(case, fail)
         nt = True
@@ -277,7 +318,7 @@ def case_sig(case):
 MENU_MAX = 12       # largest entry of the size menu in main.js
 
 
-def menu_cases(max_L, max_n, max_n_edge=700, thorough=False):
+def menu_cases(max_L, max_n, max_n_edge=700, thorough=False, max_n_repr=20000):
     l2c = label_to_class()
     served = []
     for dim in (2, 3):
@@ -310,6 +351,24 @@ def menu_cases(max_L, max_n, max_n_edge=700, thorough=False):
                         cases.append({'kind': 'code-data', 'label': label, 'cls': cls,
                                       'size': list(size), 'deformation': deformation,
                                       'rotated': rotated, 'coprime': coprime})
+        # every entry of the size menu: descriptions only (no H, no HTTP)
+        for L in range(1, MENU_MAX + 1):
+            for coprime in (False, True):
+                size = sizes_for(cls, L, coprime)
+                if not domain.size_ok(cls, size) or \
+                        (cls == 'Color666ToricCode' and size[0] != size[1]):
+                    continue
+                if rough_n(cls, size) > max_n_repr:
+                    continue
+                combos = [(d_, r_) for d_ in [None] + list(defs) for r_ in (False, True)]
+                if not thorough:
+                    # quick: the undeformed Kitaev picture at every size, the
+                    # other pictures at three sizes
+                    combos = combos[:1] + (combos[1:3] if L in (5, 8, 12) and not coprime else [])
+                for deformation, rotated in combos:
+                    cases.append({'kind': 'representation', 'label': label, 'cls': cls,
+                                  'size': list(size), 'deformation': deformation,
+                                  'rotated': rotated, 'coprime': coprime})
     return cases
 
 
@@ -362,10 +421,14 @@ def decoding_smallest(cls):
 def run(ctx):
     quick = ctx.tier == 'quick'
     cases = menu_cases(4 if quick else 6, 400 if quick else 1500,
-                       max_n_edge=700 if quick else 6000, thorough=not quick)
+                       max_n_edge=700 if quick else 6000, thorough=not quick,
+                       max_n_repr=2800 if quick else 25000)
     ctx.exhaustive = True
     ctx.note('menu_cases', len(cases))
     ctx.note('excluded_from_domain',
              'sizes outside the supported family; Color666ToricCode with L_x != L_y (C01 known finding)')
-    ctx.run_cases(cases, chunk=4)
+    rep = sorted((c for c in cases if c['kind'] == 'representation'),
+                 key=lambda c: -rough_n(c['cls'], tuple(c['size'])))
+    ctx.run_cases(rep, chunk=1)
+    ctx.run_cases([c for c in cases if c['kind'] != 'representation'], chunk=4)
     ctx.run_hypothesis('request_cases', 400 if quick else 20000)
